@@ -7,6 +7,7 @@ import (
 	"go/ast"
 	"go/token"
 	"go/types"
+	"regexp"
 	"sort"
 	"strings"
 
@@ -101,6 +102,29 @@ func storeSig(fn *ssa.Function, depth int) []string {
 					}
 				}
 			}
+			// a value helper of the package with a single return (e.g. "the next index of the list") is described by
+			// what it returns, so that the helper and the same expression written in place read the same
+			if sc := x.Call.StaticCallee(); sc != nil && sc.Pkg == fn.Pkg && sc.Blocks != nil && d < 4 {
+				var rets []*ssa.Return
+				for _, b := range sc.Blocks {
+					for _, in := range b.Instrs {
+						if r, ok := in.(*ssa.Return); ok {
+							rets = append(rets, r)
+						}
+					}
+				}
+				if len(rets) == 1 && len(rets[0].Results) == 1 {
+					switch rets[0].Results[0].(type) {
+					case *ssa.BinOp, *ssa.Convert:
+						for i, prm := range sc.Params {
+							if i < len(x.Call.Args) {
+								paramSrc[prm] = valueSrc(x.Call.Args[i], d+1)
+							}
+						}
+						return valueSrc(rets[0].Results[0], d+1)
+					}
+				}
+			}
 			if cf := calleeFunc(x); cf != nil {
 				if cf.Name() == "append" {
 					return "append"
@@ -115,9 +139,14 @@ func storeSig(fn *ssa.Function, depth int) []string {
 					}
 					return "append(" + strings.Join(parts, ",") + ")"
 				}
+				if b.Name() == "len" && len(x.Call.Args) == 1 {
+					return "len(" + valueSrc(x.Call.Args[0], d+1) + ")"
+				}
 				return "builtin:" + b.Name()
 			}
 			return "call"
+		case *ssa.BinOp:
+			return x.Op.String() + "(" + valueSrc(x.X, d+1) + "," + valueSrc(x.Y, d+1) + ")"
 		case *ssa.Slice:
 			return valueSrc(x.X, d+1)
 		case *ssa.UnOp:
@@ -385,7 +414,7 @@ func ruleSetterRows(c *Ctx) {
 				c.fail(rule, "fluent.(*"+b+")."+nm, "row", pos, "setter has no frozen row (new builder method): its effect must be confirmed and added to the table; it stores "+strings.Join(sig, " ; "))
 				continue
 			}
-			c.check(strings.Join(sig, " ; ") == strings.Join(want, " ; "), rule, "fluent.(*"+b+")."+nm, "row", pos, strings.Join(sig, " ; "),
+			c.check(canonRow(strings.Join(sig, " ; ")) == canonRow(strings.Join(want, " ; ")), rule, "fluent.(*"+b+")."+nm, "row", pos, strings.Join(sig, " ; "),
 				fmt.Sprintf("setter stores [%s], its frozen row is [%s]", strings.Join(sig, " ; "), strings.Join(want, " ; ")))
 			// returns its receiver
 			retOK := true
@@ -690,3 +719,9 @@ func ruleCurrentElectionIDWriters(c *Ctx) {
 	c.check(len(bad) == 0 && len(writers) >= 2, rule, "fluent.GRIBIClient", "writers of currentElectionID", "-", "stored only by "+strings.Join(writers, ", "),
 		"currentElectionID is also stored by "+strings.Join(bad, ", ")+": operations queued afterwards are stamped with an id the caller did not set last")
 }
+
+// canonRow: "the next free index of a list" is the same value whether a helper computes it or the expression
+// len(list)+1 is written in place.
+var nextIndexForms = regexp.MustCompile(`=(call:nextEncapHeaderKeyIndex|\+\(len\([^()]*\),const\))`)
+
+func canonRow(s string) string { return nextIndexForms.ReplaceAllString(s, "=len(list)+const") }
